@@ -1083,6 +1083,22 @@ def alias_cases(ctx, r, shim):
     return cases
 
 
+def stream_alias_plan(ctx, cases):
+    """the builder's selection for requests that spell the script as a variant code / in another letter case: model
+    (from_iso15924_tag model, then the selection model) against the crate; the shaper name is compared only where the model
+    knows the script's shaper"""
+    lines = [f"tagplan {c['hex']} {c['abs']} 0 {tg(c['script'])} {'-' if c['lang'] == '-' else hx(c['lang'])}" for c in cases]
+    kind = {ln: ("variant" if c["code"] != c["parent"] else "plain") + (":canonical" if c["script"] == c["code"] else ":other-case")
+            for ln, c in zip(lines, cases)}
+
+    def canon_noshaper(x):
+        x = canon(x)
+        f = x.split()
+        return "* " + " ".join(f[1:]) if len(f) == 3 else x
+    return ctx.correspond("tag-select", lines=lines, classify=lambda ln, out: ["tagplan-spelled", "tagplan-spelled:" + kind[ln]],
+                          canon=canon_noshaper)
+
+
 def alias_shape_got(reply):
     m = reply.split()
     if len(m) != 6 or m[0] != "ok":
@@ -1815,7 +1831,9 @@ def run(ctx):
     search_script_case(ctx, shim, scripts)
     search_script_garbage(ctx, shim, ctx.rng("script-garbage"), scripts, ctx.budget(4000, 200000))
     search_shape(ctx, cases)
-    search_alias_shape(ctx, alias_cases(ctx, ctx.rng("alias-fonts"), shim))
+    acases = alias_cases(ctx, ctx.rng("alias-fonts"), shim)
+    stream_alias_plan(ctx, acases)
+    search_alias_shape(ctx, acases)
     search_resolve_shape(ctx, mcases)
     search_resolve_plan(ctx, reqs)
 
